@@ -1,5 +1,6 @@
 """C02 — float->decimal round-trips and is shortest: tables and constants only (DESIGN §4)."""
 from rules import tbl_write_float as W
+from rules import extra as X
 from rules.core import guarded
 
 INFO = {
@@ -15,3 +16,4 @@ def run(col, configs, tier):
         guarded(col, W.rule_dragonbox, facts, tier)
         guarded(col, W.rule_floor_logs, facts, tier)
         guarded(col, W.rule_grisu, facts)
+        guarded(col, X.rule_divisibility_test, facts)
